@@ -21,7 +21,7 @@ LEVEL = "fault_enumeration"
 RULE = ("a case = (MAX_RETRIES 0..2, start sequence number in {0, 1, 0x7fff, 0xfff0..0xffff}, serializer, history of <= 12 operations "
         "from {call, oneway, batch of 2, attribute read, stream of 2 items}, each with one fault per request message it may send "
         "(1 + retries for calls) from {deliver, drop-request, reply-lost, reply-late, cut-reply at offset k, reset-after, alter-seq by d, "
-        "replay-stale, duplicate}). Thorough tier additionally enumerates every cut offset of one reply. Non-trivial: the history "
+        "replay-stale, duplicate, reset-while-the-server-decodes-the-request (calls and oneway calls, first attempt)}). Thorough tier additionally enumerates every cut offset of one reply. Non-trivial: the history "
         "contains a non-deliver fault followed by a later operation; distinct = distinct case JSON")
 ASSUMPTIONS = ["the fault wrapper behaves like a transport: late replies stay in the stream of their connection, a reset connection stays dead",
                "a stale reply with the same 16-bit sequence number (65536 calls later) is outside the bounded histories",
@@ -42,13 +42,13 @@ def _classes():
 
     @api.expose
     class Target(object):
-        def work(self, token):
+        def work(self, token, extra=None):
             with LOCK:
                 EXEC[token] = EXEC.get(token, 0) + 1
             return answer(token)
 
         @api.oneway
-        def ow(self, token):
+        def ow(self, token, extra=None):
             with LOCK:
                 EXEC[token] = EXEC.get(token, 0) + 1
 
@@ -66,7 +66,18 @@ def _classes():
     return Target
 
 
-FAULTS = ["deliver", "deliver", "deliver", "drop-request", "reply-lost", "reply-late", "cut-reply", "reset-after", "alter-seq", "replay-stale", "duplicate"]
+FAULTS = ["deliver", "deliver", "deliver", "drop-request", "reply-lost", "reply-late", "cut-reply", "reset-after", "alter-seq", "replay-stale", "duplicate",
+          "reset-while-decoding"]
+GATE_CLASS = "verif.c03.BeingDecodedNow"
+
+
+def _gate_converter(classname, d):
+    """custom class deserialiser (public API): runs while the server decodes a request that carries the gate argument"""
+    ctl = CTL.get("ctl")
+    if ctl is not None and ctl.decode_entered is not None:
+        ctl.decode_entered.set()
+        ctl.decode_go.wait(CEILING)
+    return None
 fault = st.one_of(
     st.sampled_from(FAULTS).map(lambda k: [k]),
     st.tuples(st.just("cut-reply"), st.integers(0, 120)).map(list),
@@ -102,6 +113,8 @@ def _setup(servertype):
     S = live.Served(servertype)
     S.daemon.register(_classes()(), "target")
     un = faultconn.install(lambda oid: CTL.get("ctl") if oid == "target" else None)
+    from Pyro5.serializers import SerializerBase
+    SerializerBase.register_dict_to_class(GATE_CLASS, _gate_converter)
     _live.update(servertype=servertype, served=S, uninstall=un, token=0)
     return _live
 
@@ -119,7 +132,7 @@ def _fault_reaches_server(f):
 
 
 def _fault_breaks(f):
-    return f[0] in ("drop-request", "reply-lost", "reply-late", "cut-reply", "reset-after", "alter-seq", "replay-stale")
+    return f[0] in ("drop-request", "reply-lost", "reply-late", "cut-reply", "reset-after", "alter-seq", "replay-stale", "reset-while-decoding")
 
 
 def run_case(case, servertype=None, keep=False):
@@ -136,6 +149,20 @@ def run_case(case, servertype=None, keep=False):
 
     ctl = faultconn.Controller()
     CTL["ctl"] = ctl
+
+    def server_sees_reset():
+        # the most recent connection that passed the handshake is this proxy's: wait until its server-side socket knows
+        with S.daemon.v_lock:
+            sconn = S.daemon.v_validated[-1][0] if S.daemon.v_validated else None
+        if sconn is not None:
+            def gone():
+                try:
+                    sconn.sock.getpeername()
+                    return False
+                except OSError:
+                    return True
+            live.wait_for(gone, 2.0)
+    ctl.server_sees_reset = server_sees_reset
     p = live.proxy(S.uri("target"), serializer=case["ser"], timeout=CEILING, retries=case["retries"])
     p._pyroSeq = case["seq0"]
     state = {"stale": False}     # a duplicated reply is still in the stream of the open connection: the NEXT exchange may fail
@@ -182,10 +209,23 @@ def run_case(case, servertype=None, keep=False):
             faults = [list(f) for f in o["faults"]]
             before = len(ctl.history)
             label = "op %d %s faults=%r" % (n, kind, faults)
+            gate = None
+            if kind in ("call", "oneway") and faults and faults[0][0] == "reset-while-decoding":
+                # only the FIRST attempt can carry it (the argument's deserialiser waits for the harness)
+                ctl.gate_armed = True
+                ctl.decode_entered, ctl.decode_go = threading.Event(), threading.Event()
+                gate = {"__class__": GATE_CLASS, "token": tok}
+                for f in faults[1:]:
+                    if f[0] == "reset-while-decoding":
+                        f[0] = "reset-after"
+            else:
+                for f in faults:
+                    if f[0] == "reset-while-decoding":
+                        f[0] = "reset-after"
             if kind == "call":
                 ctl.script = faults[:1 + case["retries"]]
                 try:
-                    res = ("ok", p.work(tok))
+                    res = ("ok", p.work(tok) if gate is None else p.work(tok, gate))
                 except errors.CommunicationError as x:
                     res = ("comm", x)
                 except Exception as x:
@@ -208,7 +248,7 @@ def run_case(case, servertype=None, keep=False):
             elif kind == "oneway":
                 ctl.script = faults[:1 + case["retries"]]
                 try:
-                    res = ("ok", p.ow(tok))
+                    res = ("ok", p.ow(tok) if gate is None else p.ow(tok, gate))
                 except errors.CommunicationError as x:
                     res = ("comm", x)
                 except Exception as x:
@@ -224,6 +264,8 @@ def run_case(case, servertype=None, keep=False):
                 if not live.wait_for(lambda: EXEC.get(tok, 0) >= want_exec, CEILING):
                     viol("execution-count:oneway", "%s: delivered %d time(s) but ran %d times" % (label, want_exec, EXEC.get(tok, 0)))
                 o["_tok"], o["_want"] = tok, want_exec
+                if attempts and attempts[-1][0][0] == "reset-while-decoding":
+                    state["stale"] = True       # the connection is dead but the proxy cannot know yet: the NEXT exchange may fail
             elif kind == "batch":
                 ctl.script = faults[:1]
                 b = api.BatchProxy(p)
@@ -306,6 +348,24 @@ def run_case(case, servertype=None, keep=False):
                             if healthy(att):
                                 viol("failed-on-healthy-transport:stream", "%s item %d failed with %r" % (label, j, x))
                             after(att, "comm")
+                            if j == 0:
+                                # the fetch of the FIRST item failed on the wire: at least one item is still to come, so another fetch
+                                # (healthy transport now) either delivers one of this stream's items or fails with a communication
+                                # error - it cannot report the end of the stream without having asked
+                                ctl.script = []
+                                b5 = len(ctl.history)
+                                try:
+                                    item = next(it)
+                                    if list(item) not in (["s", tok, 0], ["s", tok, 1]):
+                                        viol("wrong-answer:stream", "%s: the fetch after a failed fetch returned %r" % (label, item))
+                                except errors.CommunicationError:
+                                    pass
+                                except StopIteration:
+                                    viol("stream-ended-without-asking", "%s: after the fetch of item 0 failed with a communication error the next "
+                                         "fetch reported the end of the stream (%d request(s) sent for it) although items remain" % (label, len(ctl.history) - b5))
+                                except Exception as x2:
+                                    viol("wrong-exception:stream", "%s: the fetch after a failed fetch raised %r" % (label, x2))
+                                after(ctl.history[b5:], "comm")
                             break
                         except StopIteration:
                             viol("wrong-answer:stream", "%s ended early at item %d" % (label, j))
@@ -369,6 +429,9 @@ def run_case(case, servertype=None, keep=False):
         except Exception:
             pass
         CTL.pop("ctl", None)
+        with S.daemon.v_lock:
+            del S.daemon.v_validated[:]
+            del S.daemon.v_disconnects[:]
         with LOCK:
             EXEC.clear()
         if not keep:
